@@ -3,6 +3,7 @@
 * This file is part of BitSerializer library, licensed under the MIT license.  *
 *******************************************************************************/
 #include "msgpack_readers.h"
+#include <cstring>
 #include "bitserializer/conversion_detail/memory_utils.h"
 
 /*
@@ -222,7 +223,9 @@ namespace
 	{
 		if (pos + sizeof(T) <= inputData.size())
 		{
-			outValue = Memory::BigEndianToNative(*reinterpret_cast<const T*>(inputData.data() + pos));
+			T networkVal;
+			std::memcpy(&networkVal, inputData.data() + pos, sizeof(T));	// The data is not aligned
+			outValue = Memory::BigEndianToNative(networkVal);
 			pos += sizeof(T);
 		}
 		else {
@@ -834,7 +837,9 @@ namespace
 	{
 		if (const auto data = binaryStreamReader.ReadSolidBlock(sizeof(T)); !data.empty())
 		{
-			outValue = Memory::BigEndianToNative(*reinterpret_cast<const T*>(data.data()));
+			T networkVal;
+			std::memcpy(&networkVal, data.data(), sizeof(T));	// The data is not aligned
+			outValue = Memory::BigEndianToNative(networkVal);
 		}
 		else {
 			throw ParsingException("Unexpected end of input archive", 0, binaryStreamReader.GetPosition());
